@@ -27,6 +27,13 @@ func newLinearInterpolator(seq Sequence) linearInterpolator {
 
 func (l linearInterpolator) interpolate(frac float64) Point {
 	frac = math.Max(0, math.Min(1, frac))
+	if frac == 1 {
+		// The end of the line is its final control point. Searching for it by
+		// cumulative length would stop at the first control point that
+		// reaches the total length (i.e. before any trailing repeated
+		// points), and would recompute its position with rounding error.
+		return l.seq.Get(l.seq.Length() - 1).AsPoint()
+	}
 	idx := sort.SearchFloat64s(l.cumulative, frac*l.total)
 	if idx == l.seq.Length() {
 		return l.seq.Get(idx - 1).AsPoint()
